@@ -22,10 +22,10 @@ func init() {
 		Run: runWire,
 	})
 	core.Register(&core.Rule{
-		Name: "R-DETERMINISTIC",
+		Name:   "R-DETERMINISTIC",
 		Clause: "C09 'encoding the same value twice yields the same bytes': no function reachable from an Encode method ranges over a map or calls into math/rand, time or os.",
-		Min: 9,
-		Run: runDeterministic,
+		Min:    9,
+		Run:    runDeterministic,
 	})
 }
 
